@@ -107,6 +107,42 @@ func (k *c04Case) corrupt() string {
 			// and not asserted here: whether a signed number is malformed is not settled by the statement)
 		}[k.CorrArg%8]
 		return "type=" + name + " msg=" + hdr + " " + k.Body
+	case "literal-number":
+		// one number of the header is spelt like a programming-language literal: digit separators, radix
+		// prefixes, an exponent. The header's numbers are plain decimal digits; such a token is corrupt.
+		name := auparse.AuditMessageType(k.Type).String()
+		secs, ms, seq := fmt.Sprint(k.Sec), fmt.Sprintf("%03d", k.Msec), fmt.Sprint(k.Seq)
+		lit := func(d string) string {
+			switch k.CorrArg / 3 % 8 {
+			case 0:
+				if len(d) < 2 {
+					d = "1" + d
+				}
+				return d[:1] + "_" + d[1:]
+			case 1:
+				return "0x" + d
+			case 2:
+				return "0b" + strings.Map(func(r rune) rune { return '0' + (r-'0')%2 }, d)
+			case 3:
+				return "0o" + strings.Map(func(r rune) rune { return '0' + (r-'0')%8 }, d)
+			case 4:
+				return "0X" + d
+			case 5:
+				return d + "e0"
+			case 6:
+				return "0_" + d
+			}
+			return "0x_" + d
+		}
+		switch k.CorrArg % 3 {
+		case 0:
+			seq = lit(seq)
+		case 1:
+			secs = lit(secs)
+		case 2:
+			ms = lit(ms)
+		}
+		return "type=" + name + " msg=audit(" + secs + "." + ms + ":" + seq + "): " + k.Body
 	case "seq-overflow":
 		big := uint64(1<<32) + uint64(k.CorrArg)
 		name := auparse.AuditMessageType(k.Type).String()
@@ -142,7 +178,7 @@ func (k *c04Case) corrupt() string {
 	return ""
 }
 
-var c04Corruptions = []string{"truncate", "drop-structural", "letter-for-digit", "seq-overflow", "bad-type-name", "no-msg-token", "left-truncate", "empty-field"}
+var c04Corruptions = []string{"truncate", "drop-structural", "letter-for-digit", "seq-overflow", "bad-type-name", "no-msg-token", "left-truncate", "empty-field", "literal-number"}
 
 func sameTimestampText(got string, want time.Time) bool {
 	if got == want.UTC().String() {
